@@ -613,6 +613,16 @@ class Body:
                     self.stores.append(st)
                 self.stmt_vals[pt] = v
                 return
+            sv0 = strip(v)
+            if sv0 is not None and sv0.kind == 'agg' and sv0.extra.get('akind') == 'adt' and sv0.extra.get('variant') and sv0.extra['variant'].get('fields') \
+                    and len(sv0.extra['variant']['fields']) == len(sv0.args) and len(sv0.args) >= 2 and not sv0.extra['variant']['fields'][0].isdigit():
+                # `*place = Struct { a, b, .. }` is a write of every field
+                for fname, comp in zip(sv0.extra['variant']['fields'], sv0.args):
+                    stf = Store(root, tuple(full) + (fname,), comp, pt, span)
+                    stf.owner = sv0.extra.get('path')
+                    self.stores.append(stf)
+                self.stmt_vals[pt] = v
+                return
             st = Store(root, full, v, pt, span)
             for e in reversed(proj):
                 if isinstance(e, list) and e[0] == 'field':
